@@ -113,7 +113,7 @@ macro_rules! c04_binding_phase {
     };
 }
 use blots_core::values::Value;
-c04_binding_phase!(c04_q_binding_optional_before_required, vec![opt("a"), req("b")], |a| crate::av![Value::Number(a)]);
+c04_binding_phase!(c04_t_binding_optional_before_required, vec![opt("a"), req("b")], |a| crate::av![Value::Number(a)]);
 c04_binding_phase!(c04_t_binding_rest_before_required, vec![rest("r"), req("b")], |a| crate::av![Value::Number(a)]);
 c04_binding_phase!(c04_t_binding_single_required, vec![req("a")], |a| crate::av![Value::Number(a)]);
 c04_binding_phase!(c04_t_binding_single_optional_no_arg, vec![opt("a")], |_a| crate::av![]);
